@@ -1832,6 +1832,13 @@ def run_ops(sc, ops, acc, prop):
 
 
 def run_case(case, acc, prop, active=None):
+    for key, fn in (('aborted_update', aborted_update_case), ('late_quote', late_quote_case)):
+        if key in case:
+            try:
+                fn(case[key], acc)
+            except Violation as v:
+                acc.violation(v, case)
+            return None
     if case.get('kind') == 'symmetry':
         rng = random.Random(0)
         # replay of a symmetry pair: same price / quantity / rates
@@ -2015,6 +2022,68 @@ def late_quote_case(sp, acc):
     acc.count('C04:orders_waiting_for_a_first_quote')
 
 
+def aborted_update_script(rng):
+    """An in-hours update that fills an order and then fails on an order whose asset has no price yet (the documented
+    ValueError); the caller carries on. The NEXT fills must use the quotes of their own update (C05)."""
+    t1 = pd.Timestamp('2021-03-0%d 15:00:00' % rng.choice([1, 2, 3, 4]), tz='UTC') + pd.Timedelta(minutes=rng.randint(0, 300))
+    gap = rng.choice([pd.Timedelta(minutes=1), pd.Timedelta(hours=1), pd.Timedelta(days=1)])
+    q1 = rand_quote(rng, set())
+    q2 = rand_quote(rng, set(q1))
+    return {'t1': str(t1), 't2': str(t1 + gap if (t1 + gap).hour < 21 and (t1 + gap).hour >= 15 else t1 + pd.Timedelta(days=1)),
+            'q1': q1, 'q2': q2, 'rates': [rng.choice([0.0, 0.001, 0.01]), rng.choice([0.0, 0.005])],
+            'first': rng.choice([1, -1]) * rng.randint(1, 400), 'second': rng.choice([1, -1]) * rng.randint(1, 400),
+            'closed_between': rng.random() < 0.5}
+
+
+def aborted_update_case(sp, acc):
+    from qstrader.broker.simulated_broker import SimulatedBroker
+    from qstrader.exchange.simulated_exchange import SimulatedExchange
+    from qstrader.broker.fee_model.percent_fee_model import PercentFeeModel
+    from qstrader.execution.order import Order
+    t1, t2 = ts(sp['t1']), ts(sp['t2'])
+    book = LateBook()
+    book.q['EQ:X'] = tuple(sp['q1'])
+    c, x = sp['rates']
+    b = SimulatedBroker(t1, SimulatedExchange(t1), book, initial_funds=1e9, fee_model=PercentFeeModel(commission_pct=c, tax_pct=x))
+    b.create_portfolio('p')
+    b.subscribe_funds_to_portfolio('p', 2e7)
+    b.submit_order('p', Order(t1, 'EQ:X', sp['first']))
+    b.submit_order('p', Order(t1, 'EQ:NOPRICE', 10))
+    try:
+        b.update(t1)
+    except ValueError:
+        acc.count('C05:updates_aborted_by_an_unpriced_order')
+    if sp['closed_between']:
+        b.update(t1.normalize() + pd.Timedelta(hours=22))       # outside exchange hours: nothing executes
+        if t2 <= b.current_dt:
+            t2 = t2 + pd.Timedelta(days=1)
+            while t2.weekday() > 4:
+                t2 = t2 + pd.Timedelta(days=1)
+    book.q['EQ:X'] = tuple(sp['q2'])
+    cash0 = b.get_portfolio_cash_balance('p')
+    n0 = len(b.portfolios['p'].history)
+    b.submit_order('p', Order(b.current_dt, 'EQ:X', sp['second']))
+    b.update(t2)
+    hist = b.portfolios['p'].history[n0:]
+    if len(hist) != 1:
+        raise Violation('C05', 'aborted-update/fill-count', '%d history entries for one order after an aborted update' % len(hist), sp)
+    q = sp['second']
+    price = sp['q2'][1] if q > 0 else sp['q2'][0]
+    exact = F(price) * q
+    wants = [exact + (F(c) + F(x)) * abs(n) for n in core.round_candidates(exact)]
+    got = F(cash0) - F(b.get_portfolio_cash_balance('p'))
+    if not any(close(got, w_, abs(F(cash0)) + abs(w_)) for w_ in wants):      # a difference of two balances: scaled by them
+        other = sp['q1'][1] if q > 0 else sp['q1'][0]
+        raise Violation('C05', 'aborted-update/stale-quote', 'after an update that was aborted by an order without a price, the next fill '
+                        '(%d EQ:X at %s, quote %s) moved the cash by %r; price x quantity + commission at the current quote is %s '
+                        '(the aborted update\'s quote was %s)' % (q, sp['t2'], sp['q2'], float(got), [float(w_) for w_ in wants], other), sp)
+    if hist[0].dt != t2:
+        raise Violation('C05', 'aborted-update/fill-time', 'fill stamped %s, update time %s' % (hist[0].dt, t2), sp)
+    if abs(sp['q1'][0] - sp['q2'][0]) < 1e-6 * sp['q2'][0]:
+        return
+    acc.count('C05:fills_after_an_aborted_update')
+
+
 def shard_broker(spec, acc, prop, faults):
     rng = random.Random(spec['rng'])
     import time
@@ -2033,6 +2102,12 @@ def shard_broker(spec, acc, prop, faults):
             except Violation as v:
                 acc.violation(v, {'late_quote': sp})
     if prop == 'C05':
+        for i in range(spec['cases'] * 2):
+            sp = aborted_update_script(rng)
+            try:
+                aborted_update_case(sp, acc)
+            except Violation as v:
+                acc.violation(v, {'aborted_update': sp})
         for i in range(spec['cases'] * 6):
             try:
                 symmetry_pair(rng, acc)
